@@ -257,9 +257,28 @@ def a_sites(led, rid, ctx):
                 want = None
             # compare on the coarse skeleton computed from the key text when no structured one is stored
             if _coarse(ent["key"]) == _coarse(key) or sk == ent.get("skeleton"):
+                same_fn = _split(ent["key"])[0] == _split(key)[0]
+                if same_fn and not _tokens(key) <= (_tokens(ent["key"]) | PLUMBING):
+                    # same function, and the operands mention a constant / call / field the recorded site did
+                    # not: the computation was changed, not moved
+                    continue
                 ent["_taken"] = key
                 return ent
         return None
+
+    PLUMBING = {"next", "into_iter", "iter", "enumerate", "Some", "copied", "cloned", "deref", "as", "zip", "rev",
+                "usize", "u32", "u64", "i32", "i64", "isize", "const", "mut", "pointer"}
+
+    def _tokens(k):
+        import re
+        out = set()
+        for opnd in _split(k)[2:]:
+            opnd = re.sub(r"as \*(const|mut) \[[^\]]*\]", "", opnd)
+            for t in re.findall(r"-?\d+|[A-Za-z_][A-Za-z_0-9]*", opnd):
+                if re.match(r"^(arg\d+|phi_\d+|_\d+|[0-9])$", t):
+                    continue
+                out.add(t)
+        return out
 
     def _split(k):
         """split a key on `|` outside parentheses (phi alternatives are written with `|` too)"""
